@@ -1252,6 +1252,9 @@ def call_ext(interp, dotted: str, args: List[V], kwargs: Dict[str, V], node, cc)
         return Term("sort", args, kwargs)
     if d == "numpy.unique":
         return Term("unique", args, kwargs)
+    if d in ("numpy.intersect1d", "numpy.union1d", "numpy.setdiff1d", "numpy.setxor1d"):
+        # set operations: the result is the SORTED set of unique values - order and multiplicity of the operands are not kept
+        return Term("setop", [Const(d.split(".")[-1])] + list(args), kwargs)
     if d in ("numpy.sum", "numpy.mean", "numpy.max", "numpy.min", "numpy.prod", "numpy.average", "numpy.amax", "numpy.amin"):
         return reduce_call(interp, d.split(".")[1], args[0], _axis(kwargs, args, 1))
     if d in ("numpy.argmin", "numpy.argmax", "numpy.argsort"):
